@@ -1022,7 +1022,31 @@ func rulePORT1(c *Ctx) {
 	}
 	// how the replacement count n and the cursor start are computed, as
 	// nesting-independent tables of guarded assignments (see sliceTable)
-	a, b := sliceTable(p, mine, []string{"n", "start"}), sliceTable(ref, theirs, []string{"n", "start"})
+	// seeds, by role: the count parameter (4th) and the cursor that the
+	// replacement loop carries over (assigned by the last statement of its body)
+	seedsOf := func(pk pkgT, fd *ast.FuncDecl) []types.Object {
+		var out []types.Object
+		i := 0
+		for _, f := range fd.Type.Params.List {
+			for _, nm := range f.Names {
+				if i == 3 {
+					out = append(out, pk.TypesInfo.Defs[nm])
+				}
+				i++
+			}
+		}
+		for _, s := range fd.Body.List {
+			if loop, ok := s.(*ast.ForStmt); ok && len(loop.Body.List) > 0 {
+				if as, ok := loop.Body.List[len(loop.Body.List)-1].(*ast.AssignStmt); ok && as.Tok == token.ASSIGN && len(as.Lhs) == 1 {
+					if id, ok := as.Lhs[0].(*ast.Ident); ok {
+						out = append(out, pk.TypesInfo.ObjectOf(id))
+					}
+				}
+			}
+		}
+		return out
+	}
+	a, b := sliceTable(p, mine, nil, seedsOf(p, mine)...), sliceTable(ref, theirs, nil, seedsOf(ref, theirs)...)
 	if len(a) < 6 || len(b) < 6 {
 		c.anchor(fmt.Sprintf("cursor computation of doTextReplace / strings.Replace (%d / %d guarded assignments)", len(a), len(b)))
 		return
